@@ -24,7 +24,9 @@ EarlySetupFail == {"badarg_timeouts", "badarg_tls"}                     \* direc
 LateSetupFail == {"unknown_directive_arg", "badarg_gzip", "badarg_proxy", "htpasswd_missing",
                   "htpasswd_malformed", "badarg_errors"}                \* directives after 'on'
 StartupFail == {"failstartup", "log_unwritable"}
-ListenFail == {"listen_busy"}
+\* listen_busy: the second site's TCP port is held by somebody else; listen_busy_udp: QUIC is on and the
+\* UDP port of the first (TLS) site is held - its TCP listener has been obtained by then
+ListenFail == {"listen_busy", "listen_busy_udp"}
 Kinds == {"ok"} \cup ParseFail \cup EarlySetupFail \cup LateSetupFail \cup StartupFail \cup ListenFail
 UsesHtpasswd == {"htpasswd_missing", "htpasswd_malformed"}
 
